@@ -57,6 +57,24 @@ func fail(format string, a ...interface{}) {
 // tryGemFunc translates one function with the typed translation of gemfunc.go; when its shape
 // is outside the translated fragment the result is a stub without the definition (the equality
 // proof that needs it then fails to build, which is reported for the property it belongs to only).
+// tryGemUnit parses the file; a file that cannot be read gives a unit without declarations (every
+// function of the group then becomes a stub).
+func tryGemUnit(repo, file string) (u *gemUnit) {
+	softFail = true
+	defer func() {
+		softFail = false
+		if r := recover(); r != nil {
+			e, ok := r.(softErr)
+			if !ok {
+				panic(r)
+			}
+			fmt.Fprintf(os.Stderr, "translator: %s: %s\n", file, string(e))
+			u = &gemUnit{file: file, decls: map[string]*ast.FuncDecl{}, done: map[string]gemSig{}, busy: map[string]bool{}}
+		}
+	}()
+	return newGemUnit(repo, file)
+}
+
 func tryGemFunc(u *gemUnit, name string) (out string) {
 	softFail = true
 	defer func() {
@@ -67,7 +85,7 @@ func tryGemFunc(u *gemUnit, name string) (out string) {
 				panic(r)
 			}
 			fmt.Fprintf(os.Stderr, "translator: %s not translated: %s\n", name, string(e))
-			out = fmt.Sprintf("(* NOT TRANSLATED: %s: %s *)\nDefinition go_%s_not_translated : unit := tt.\n", name, strings.ReplaceAll(string(e), "*)", "* )"), name)
+			out = fmt.Sprintf("(* NOT TRANSLATED: %s: %s *)\nDefinition %s_not_translated : unit := tt.\n", name, strings.ReplaceAll(string(e), "*)", "* )"), coqName(name))
 		}
 	}()
 	before := len(u.defs)
@@ -280,14 +298,16 @@ func sweepPred(sweep string, idx int) []interval {
 func tables(repo, sweep string) (map[string][]interval, []string) {
 	path := filepath.Join(repo, "internal", "gem", "graphemeclusters.go")
 	fset := token.NewFileSet()
+	env := &predEnv{fns: map[string]*ast.FuncDecl{}, memo: map[string]iset{}, stack: map[string]bool{}}
 	f, err := parser.ParseFile(fset, path, nil, 0)
 	if err != nil {
-		fail("parse %s: %v", path, err)
-	}
-	env := &predEnv{fns: map[string]*ast.FuncDecl{}, memo: map[string]iset{}, stack: map[string]bool{}}
-	for _, d := range f.Decls {
-		if fd, ok := d.(*ast.FuncDecl); ok && fd.Recv == nil {
-			env.fns[fd.Name.Name] = fd
+		// the predicates may have moved to another file: their tables are then read off the compiled code
+		fmt.Fprintf(os.Stderr, "translator: parse %s: %v\n", path, err)
+	} else {
+		for _, d := range f.Decls {
+			if fd, ok := d.(*ast.FuncDecl); ok && fd.Recv == nil {
+				env.fns[fd.Name.Name] = fd
+			}
 		}
 	}
 	res := map[string][]interval{}
@@ -295,17 +315,19 @@ func tables(repo, sweep string) (map[string][]interval, []string) {
 	var need []string
 	for i, p := range predOrder {
 		fd := env.fns[p]
-		if fd == nil {
-			fail("predicate %s not found", p)
-		}
-		if ivs, ok := simplePred(fd); ok {
-			res[p] = ivs
-			continue
-		}
-		ivs, why, ok := generalPred(env, p)
-		if ok {
-			res[p] = ivs
-			continue
+		why := "not found in graphemeclusters.go"
+		if fd != nil {
+			if ivs, ok := simplePred(fd); ok {
+				res[p] = ivs
+				continue
+			}
+			var ivs []interval
+			var ok bool
+			ivs, why, ok = generalPred(env, p)
+			if ok {
+				res[p] = ivs
+				continue
+			}
 		}
 		fmt.Fprintf(os.Stderr, "translator: %s is outside the translated fragment (%s)\n", p, why)
 		if sweep == "" {
@@ -325,46 +347,60 @@ func tables(repo, sweep string) (map[string][]interval, []string) {
 // ---- constants -----------------------------------------------------------
 
 func stringConsts(repo, file string, names []string) map[string]string {
-	path := filepath.Join(repo, file)
-	fset := token.NewFileSet()
-	f, err := parser.ParseFile(fset, path, nil, 0)
-	if err != nil {
-		fail("parse %s: %v", path, err)
-	}
 	out := map[string]string{}
-	ast.Inspect(f, func(n ast.Node) bool {
-		vs, ok := n.(*ast.ValueSpec)
-		if !ok {
-			return true
-		}
-		for i, id := range vs.Names {
-			if i >= len(vs.Values) {
-				continue
+	var files []*ast.File
+	func() {
+		softFail = true
+		defer func() {
+			softFail = false
+			if r := recover(); r != nil {
+				if e, ok := r.(softErr); ok {
+					// not fatal: no constant of this package is generated
+					fmt.Fprintf(os.Stderr, "translator: %s: %s\n", file, string(e))
+					return
+				}
+				panic(r)
 			}
-			lit, ok := vs.Values[i].(*ast.BasicLit)
+		}()
+		files = parsePkg(filepath.Join(repo, file))
+	}()
+	for _, f := range files {
+		ast.Inspect(f, func(n ast.Node) bool {
+			vs, ok := n.(*ast.ValueSpec)
 			if !ok {
-				continue
+				return true
 			}
-			for _, w := range names {
-				if w == id.Name {
-					switch lit.Kind {
-					case token.STRING:
-						s, err := strconv.Unquote(lit.Value)
-						if err != nil {
-							fail("%s: %v", id.Name, err)
+			for i, id := range vs.Names {
+				if i >= len(vs.Values) {
+					continue
+				}
+				lit, ok := vs.Values[i].(*ast.BasicLit)
+				if !ok {
+					continue
+				}
+				for _, w := range names {
+					if w == id.Name {
+						switch lit.Kind {
+						case token.STRING:
+							s, err := strconv.Unquote(lit.Value)
+							if err != nil {
+								fail("%s: %v", id.Name, err)
+							}
+							out[w] = "S" + s
+						case token.INT:
+							out[w] = "I" + lit.Value
 						}
-						out[w] = "S" + s
-					case token.INT:
-						out[w] = "I" + lit.Value
 					}
 				}
 			}
-		}
-		return true
-	})
+			return true
+		})
+	}
 	for _, w := range names {
 		if _, ok := out[w]; !ok {
-			fail("constant %s not found as a literal in %s", w, file)
+			// not fatal: the constant is left out of gen/Consts.v, so that only the proof that
+			// mentions it (and the property that proof belongs to) stops building
+			fmt.Fprintf(os.Stderr, "translator: constant %s not found as a literal in %s\n", w, file)
 		}
 	}
 	return out
@@ -432,11 +468,10 @@ func main() {
 	writeIfChanged(filepath.Join(*out, "Tables.v"), b.String())
 
 	// constants
-	oc := stringConsts(*repo, "options.go", []string{"DefaultIndentString", "DefaultLineSeparator", "DefaultParagraphSeparator", "DefaultTableCharSet"})
-	pc := stringConsts(*repo, "operations.go", []string{"termLeftTabWidth", "minBetween", "definitionStart"})
-	tc := stringConsts(*repo, filepath.Join("internal", "manip", "table.go"), []string{"minNonBorderInterColumnPadding"})
+	oc := stringConsts(*repo, ".", []string{"DefaultIndentString", "DefaultLineSeparator", "DefaultParagraphSeparator", "DefaultTableCharSet"})
+	pc := stringConsts(*repo, ".", []string{"termLeftTabWidth", "minBetween", "definitionStart"})
 	var c strings.Builder
-	c.WriteString("(* GENERATED by /verif/translator from options.go, operations.go, internal/manip/table.go. Do not edit. *)\n")
+	c.WriteString("(* GENERATED by /verif/translator from options.go, operations.go. Do not edit. *)\n")
 	c.WriteString("From Coq Require Import ZArith List.\nImport ListNotations.\nOpen Scope Z_scope.\n\n")
 	emit := func(m map[string]string) {
 		keys := make([]string, 0, len(m))
@@ -459,7 +494,6 @@ func main() {
 	}
 	emit(oc)
 	emit(pc)
-	emit(tc)
 	writeIfChanged(filepath.Join(*out, "Consts.v"), c.String())
 	// unicode.ToUpper of the Go runtime the harness is built with (an oracle for
 	// strings.ToUpper in table headers); every code point it changes.
@@ -491,20 +525,21 @@ func main() {
 		out, src string
 		fns      []string
 	}{
-		{"Funcs.v", filepath.Join("internal", "util", "util.go"), []string{"RangeToIndexes"}},
-		{"GemAlign.v", filepath.Join("internal", "manip", "manip.go"), []string{"CountLeadingWhitespace", "CountTrailingWhitespace", "AlignLineLeft", "AlignLineRight", "AlignLineCenter"}},
-		{"GemOpts.v", "options.go", []string{"WithDefaults"}},
-		{"GemEdit.v", "operations.go", []string{"Insert", "Delete", "Overtype"}},
-		{"GemChars.v", "subeditor.go", []string{"CharsFrom", "CharsTo"}},
-		{"GemLines.v", "subeditor.go", []string{"LinesFrom", "LinesTo"}},
+		{"Funcs.v", filepath.Join("internal", "util"), []string{"RangeToIndexes"}},
+		{"GemAlign.v", filepath.Join("internal", "manip"), []string{"CountLeadingWhitespace", "CountTrailingWhitespace", "AlignLineLeft", "AlignLineRight", "AlignLineCenter"}},
+		{"GemOpts.v", ".", []string{"Options.WithDefaults"}},
+		{"GemEdit.v", ".", []string{"Editor.Insert", "Editor.Delete", "Editor.Overtype"}},
+		{"GemChars.v", ".", []string{"Editor.CharsFrom", "Editor.CharsTo"}},
+		{"GemLines.v", ".", []string{"Editor.LinesFrom", "Editor.LinesTo"}},
+		{"GemCommit.v", ".", []string{"Editor.Commit", "Editor.String"}},
 	}
 	for _, g := range groups {
 		var gf strings.Builder
-		gf.WriteString("(* GENERATED by /verif/translator from " + g.src + ". Do not edit. *)\n")
+		gf.WriteString("(* GENERATED by /verif/translator from the package in directory " + g.src + " of the repository. Do not edit. *)\n")
 		gf.WriteString("From Coq Require Import ZArith Bool List.\nImport ListNotations.\n")
 		gf.WriteString("From Rosed Require Import Base.Res Base.ListX Base.Utf8 Gem.Segment Gem.GString Model.Manip Model.Options Model.Editor Inst.GoRt gen.Consts.\n")
 		gf.WriteString("Open Scope Z_scope.\nOpen Scope bool_scope.\n\nSection GoGemFuncs.\nContext `{Classifier}.\n\n")
-		u := newGemUnit(*repo, g.src)
+		u := tryGemUnit(*repo, g.src)
 		for _, n := range g.fns {
 			gf.WriteString(tryGemFunc(u, n))
 			gf.WriteString("\n")
@@ -514,7 +549,7 @@ func main() {
 		// proof scripts without being named there
 		entry := map[string]bool{}
 		for _, n := range g.fns {
-			entry["go_"+n] = true
+			entry[coqName(n)] = true
 		}
 		var helpers []string
 		for _, n := range u.names {
